@@ -406,15 +406,22 @@ cJSON *change_password(const struct peer *p, const cJSON *request, const char *u
 			response = create_error_response_from_request(p, request, INTERNAL_ERROR, "reason", "not enough memory for new password");
 			goto out;
 		}
-		cJSON *old_password = cJSON_DetachItemFromObject(user, "password");
-		cJSON_AddItemToObject(user, "password", new_password);
+		/*
+		 * Exchange the hashes of the two items in place: attaching a new
+		 * member needs memory and must not fail with the old one detached.
+		 */
+		char *old_hash = password->valuestring;
+		password->valuestring = new_password->valuestring;
+		new_password->valuestring = old_hash;
 		if (write_user_data() < 0) {
 			/* The change is refused: the old password stays valid. */
-			cJSON_ReplaceItemInObject(user, "password", old_password);
+			new_password->valuestring = password->valuestring;
+			password->valuestring = old_hash;
+			cJSON_Delete(new_password);
 			response = create_error_response_from_request(p, request, INTERNAL_ERROR, "reason", "Could not write password file");
 			goto out;
 		}
-		cJSON_Delete(old_password);
+		cJSON_Delete(new_password);
 	} else {
 		response = create_error_response_from_request(p, request, INVALID_PARAMS, "reason", "user not allowed to change password");
 		goto out;
